@@ -365,6 +365,12 @@ func (ex *Exec) discipline(st *State, fr *Frame, instr ssa.Instruction, p Val, i
 		if ok == "false" {
 			ex.oblige(st, "used-only-in", fmt.Sprintf("%s#uses@%s", fr.key, key), fs.Labels, ok, nil, ex.posOf(instr))
 		}
+		// used_only_in restricts who touches the field; how it is written follows the struct's default
+		if ex.disciplineOn && ex.inScopeField(key) {
+			if d := ex.defaultDiscipline(key); d != nil {
+				ex.checkField(st, fr, instr, d, key, p.T, isWrite)
+			}
+		}
 		return
 	}
 	if !ex.disciplineOn {
@@ -375,6 +381,18 @@ func (ex *Exec) discipline(st *State, fr *Frame, instr ssa.Instruction, p Val, i
 		return
 	}
 	ex.checkField(st, fr, instr, fs, key, p.T, isWrite)
+}
+
+// defaultDiscipline: the struct-wide default that applies to a field (longest declared type prefix)
+func (ex *Exec) defaultDiscipline(key string) *FieldSpec {
+	for i := len(key) - 1; i > 0; i-- {
+		if key[i] == '.' {
+			if d := ex.specs.FieldDefaults[key[:i]]; d != nil {
+				return d
+			}
+		}
+	}
+	return nil
 }
 
 func (ex *Exec) inScopeField(key string) bool {
